@@ -29,11 +29,23 @@ def die_at_unlink(jd, n):
                 raise Killed()
             done[0] += 1
         return real(p, *a, **k)
+    # jug code may call it as `os.unlink` or under a name of its own (`from os import unlink`): rebind every global
+    # of a loaded jug module that IS the original function
+    import sys
+    rebound = []
+    for mname, mod in list(sys.modules.items()):
+        if mod is not None and (mname == 'jug' or mname.startswith('jug.')):
+            for gname, val in list(vars(mod).items()):
+                if val is real:
+                    setattr(mod, gname, unlink)
+                    rebound.append((mod, gname))
     os.unlink = unlink
     try:
         yield
     finally:
         os.unlink = real
+        for mod, gname in rebound:
+            setattr(mod, gname, real)
 
 
 def killed_pack(store, jd, n):
@@ -93,3 +105,47 @@ class Gate:
         if not self.release.wait(120):
             raise RuntimeError('harness: a gated dump was never released')
         return (_ident, (self.inner,))
+
+
+# ---------------------------------------------------------------------------------------------------------------
+# The DOCUMENTED on-disk layout of a file store, read without any private method of file_store:
+#   <jugdir>/<h[:2]>/<h[2:]>   one file per result        <jugdir>/packs/jugpack   the pack (a dict key -> value,
+#   <jugdir>/tempfiles/        temporary files            written with jug.backends.encode)      <jugdir>/locks/
+def result_path(jugdir, key):
+    k = key.decode('ascii') if isinstance(key, bytes) else str(key)
+    return os.path.join(jugdir, k[:2], k[2:])
+
+
+def keys_on_disk(jugdir):
+    """the keys (bytes) that have a result file, in sorted order"""
+    out = []
+    if os.path.isdir(jugdir):
+        for d in sorted(os.listdir(jugdir)):
+            if len(d) == 2 and os.path.isdir(os.path.join(jugdir, d)):
+                for f in sorted(os.listdir(os.path.join(jugdir, d))):
+                    out.append((d + f).encode('ascii'))
+    return out
+
+
+def pack_on_disk(jugdir):
+    """the pack file's dictionary ({} when there is none), decoded with the public codec"""
+    p = os.path.join(jugdir, 'packs', 'jugpack')
+    if not os.path.exists(p):
+        return {}
+    from jug.backends.encode import decode_from
+    with open(p, 'rb') as fh:
+        return decode_from(fh)
+
+
+def tempdir_of(jugdir):
+    return os.path.join(jugdir, 'tempfiles')
+
+
+def raised_in_harness(exc, root):
+    """was the exception raised by harness code (a call into something jug no longer has) rather than by jug?"""
+    tb = exc.__traceback__
+    last = None
+    while tb is not None:
+        last = tb
+        tb = tb.tb_next
+    return last is not None and os.path.abspath(last.tb_frame.f_code.co_filename).startswith(os.path.join(root, 'harness') + os.sep)
